@@ -78,6 +78,12 @@ def draw_job(rng: random.Random, prop: str, opts) -> dict:
   else:
     layers = rng.choice([1, 2, 2, 3, 4, 4])
   integrator = rng.choice(INTEGRATORS)
+  if opts.get('light'):
+    # compile-light configurations (the C14 leg compiles one program per split)
+    family = rng.choice(['dry', 'time', 'sw'])
+    layers = min(layers, 2)
+    integrator = rng.choice(['backward_forward_euler', 'crank_nicolson_rk2',
+                             'imex_rk_sil3', 'semi_implicit_leapfrog'])
   job = {
       'family': family, 'impl': impl, 'grid': grid, 'layers': layers,
       'sigma': gen.draw_sigma_boundaries(rng, layers, uneven=rng.random() < 0.8),
@@ -88,7 +94,8 @@ def draw_job(rng: random.Random, prop: str, opts) -> dict:
       'dt': rng.choice([0.0875, 0.13, 0.175]),
       'filters': draw_filters(rng, integrator),
       'vmethod': rng.choice([None, None, 'dense', 'sparse']),
-      'extra_tracers': rng.sample(['q', 'aerosol', 'tke', 'tr_1'], rng.randint(0, 2)),
+      'extra_tracers': rng.sample(['q', 'aerosol', 'tke', 'tr_1'],
+                                  0 if opts.get('light') else rng.randint(0, 2)),
       'amp': rng.choice([0.3, 0.6, 1.0]),
       'sw_dens': [float(0.9 ** (layers - 1 - i)) for i in range(layers)],
       'sw_phi': [rng.uniform(0.05, 0.15) for _ in range(layers)],
